@@ -35,6 +35,17 @@ Model of retention / deletion (C14), mirroring pkg/retention/retention.go as it 
     two metrics segments (metricmeta.json is read into a Go map, so their input order is random).
   * `doInodeBasedDeletion` (l.431-546), selection loop only (not tied: it depends on statfs).
 
+  * `removeSegmetas` / `AddOrReplaceRotatedSegmeta` (pkg/segment/writer/segmetarw.go l.427-434, l.511-616),
+    the rewrite of segmeta.json itself, line by line (section "the segmeta.json rewrite" below): a
+    `bufio.Scanner` with a 1 MiB buffer and 1 MiB maximal token (a line of ≥ 1 MiB ends the scan with
+    ErrTooLong → `return nil`, nothing rewritten); a line `json.Unmarshal` rejects is logged and skipped
+    (it is neither preserved nor a victim: the rewrite drops it); a line is removed when its
+    VirtualTableName equals the index name (index mode) resp. its SegmentKey is in the map (key mode);
+    `len(segbaseDirs) == 0` → nothing rewritten; no line preserved → the file is removed; else the
+    preserved entries are re-marshalled one per line into segmeta.json.tmp which is renamed over the
+    file.  The lines are those `BulkAddRotatedSegmetas` writes (`json.Marshal` of a SegMeta + "\n"), for
+    which Unmarshal→Marshal is the identity (tied byte for byte by the suite `retsm`).
+
 Keys are abstract naturals (one per SegmentKey / MSegmentDir, assumed distinct as in the Go maps).
 Core Lean only.
 -/
@@ -186,6 +197,190 @@ def withoutPq (s : Store) : Store := { s with pqMeta := [] }
 
 /-- keys of a store that have local files but no segmeta.json line: nothing will ever delete them -/
 def orphans (s : Store) : List Nat := s.files.filter (fun k => decide (k ∉ s.segmetaJson.map (·.key)))
+
+/-! ### the segmeta.json rewrite (`removeSegmetas`, `AddOrReplaceRotatedSegmeta`) -/
+
+/-- `ONE_MiB`: size of the scanner's buffer and its maximal token size -/
+def smScanLimit : Nat := 1048576
+
+/-- one line of segmeta.json.  `entry`: a line `json.Unmarshal` accepts (`key` = SegmentKey, `idx` =
+VirtualTableName, `uid` = identity of the line's content, `len` = its length in bytes without the newline);
+`junk`: a line `json.Unmarshal` rejects (empty line, truncated line, …) -/
+inductive SmLine where
+  | entry (key idx uid len : Nat)
+  | junk (uid len : Nat)
+deriving DecidableEq, Repr
+
+def SmLine.len : SmLine → Nat
+  | .entry _ _ _ n => n
+  | .junk _ n => n
+
+def SmLine.uid : SmLine → Nat
+  | .entry _ _ u _ => u
+  | .junk u _ => u
+
+def SmLine.isEntry : SmLine → Bool
+  | .entry .. => true
+  | .junk .. => false
+
+/-- `bufio.Scanner.Scan` with maximal token size `limit`: a line whose length reaches the limit cannot be
+delivered (the buffer is full before its newline is seen): the scan stops with ErrTooLong.
+Returns the lines delivered, and whether `Err()` is ErrTooLong afterwards. -/
+def smScanWith (limit : Nat) : List SmLine → List SmLine × Bool
+  | [] => ([], false)
+  | l :: r => if limit ≤ l.len then ([], true) else ((smScanWith limit r).1.cons l, (smScanWith limit r).2)
+
+/-- the scanner of `removeSegmetas` / `readSegMetaEntries`: `Buffer(make([]byte, ONE_MiB), ONE_MiB)` -/
+def SmLine.tooLong (l : SmLine) : Bool := decide (smScanLimit ≤ l.len)
+
+/-- the `for reader.Scan()` loop of `removeSegmetas` -/
+def smScan (ls : List SmLine) : List SmLine × Bool := smScanWith smScanLimit ls
+
+/-- segmeta.json: absent, or its lines in file order -/
+inductive SmFile where
+  | missing
+  | lines (ls : List SmLine)
+deriving DecidableEq, Repr
+
+/-- the value `removeSegmetas` returns: `nil`, an empty map, or a map with at least one segbase directory -/
+inductive SmRet where
+  | nil | empty | dirs
+deriving DecidableEq, Repr
+
+/-- the arguments of `removeSegmetas(segkeysToRemove, indexName)`: `nilMap` = the map is nil, `victim k` = key
+`k` is in the map, `anyValid` = `GetSegBaseDirFromFilename` succeeds for at least one key of the map (the
+initial `segbaseDirs` is not empty), `index` = `some i` for a non-empty indexName -/
+structure SmArgs where
+  nilMap : Bool := false
+  victim : Nat → Bool
+  anyValid : Bool
+  index : Option Nat := none
+
+/-- does the loop of `removeSegmetas` drop this (parsed) line?  index mode looks at the index only -/
+def SmArgs.removes (a : SmArgs) : SmLine → Bool
+  | .entry k i _ _ =>
+    match a.index with
+    | some x => decide (i = x)
+    | none => a.victim k
+  | .junk .. => false
+
+/-- `preservedSmEntries`: the parsed lines that are not removed (a junk line is skipped by `continue`) -/
+def smPreserved (a : SmArgs) (ls : List SmLine) : List SmLine :=
+  ls.filter (fun l => l.isEntry && !a.removes l)
+
+/-- `removeSegmetas`: the new state of segmeta.json and the returned value -/
+def smRemove (a : SmArgs) (f : SmFile) : SmFile × SmRet :=
+  if a.nilMap && a.index.isNone then (f, .nil)              -- l.512
+  else match f with
+  | .missing => (f, if a.anyValid then .dirs else .empty)    -- l.532-536: open fails, `return segbaseDirs`
+  | .lines ls =>
+    let sc := smScan ls
+    if sc.2 then (f, .nil)                                   -- l.567-571: scanning error, `return nil`
+    else
+      -- l.556: in index mode the SegbaseDir of every removed entry is added
+      let dirs := a.anyValid || (a.index.isSome && sc.1.any (fun l => l.isEntry && a.removes l))
+      if !dirs then (f, .empty)                              -- l.574
+      else
+        let keep := smPreserved a sc.1
+        if keep.isEmpty then (.missing, .nil)                -- l.579-584: the file is removed
+        else (.lines keep, .dirs)                            -- l.586-615: tmp file, rename
+
+/-- `BulkAddRotatedSegmetas([m])`: append one line (O_APPEND|O_CREATE) -/
+def smAppend (l : SmLine) : SmFile → SmFile
+  | .missing => .lines [l]
+  | .lines ls => .lines (ls ++ [l])
+
+/-- `AddOrReplaceRotatedSegmeta(m)`: `removeSegmetas({m.SegmentKey}, "")`, then append m's line -/
+def smAddOrReplace (key idx uid len : Nat) (f : SmFile) : SmFile :=
+  smAppend (.entry key idx uid len)
+    (smRemove { victim := fun k => decide (k = key), anyValid := true } f).1
+
+/-- the entries `ReadLocalSegmeta` finds in the file (it uses the same scanner settings; junk is skipped) -/
+def smEntries : SmFile → List SmLine
+  | .missing => []
+  | .lines ls => (smScan ls).1.filter (·.isEntry)
+
+def SmLine.key : SmLine → Nat
+  | .entry k _ _ _ => k
+  | .junk .. => 0
+
+def SmLine.idx : SmLine → Nat
+  | .entry _ i _ _ => i
+  | .junk .. => 0
+
+/-- the segmeta.json of the abstract store as a file of short lines (bridge to `applyStep (.segmeta ks)`) -/
+def smOfMetas (ms : List Meta) : SmFile := .lines (ms.map (fun m => SmLine.entry m.key m.org m.key 300))
+
+/-- every line is shorter than `limit` -/
+def AllShorter (limit : Nat) (ls : List SmLine) : Prop := ∀ l ∈ ls, l.len < limit
+
+/-- guard of the rewrite theorems: every line is shorter than the scanner's limit (a SegMeta line holds the
+segment key, the segbase directory — two paths — and the index name: a few hundred bytes) -/
+def AllShort (ls : List SmLine) : Prop := AllShorter smScanLimit ls
+
+def FileShort : SmFile → Prop
+  | .missing => True
+  | .lines ls => AllShort ls
+
+/-! #### metricmeta.json (`ReadMetricsMeta`, `removeMetricsSegmentsByList`, pkg/segment/writer/metrics/meta/metricsmeta.go)
+
+The same kind of file (one `json.Marshal` of a MetricsMeta per line, `key` = MSegmentDir) and the same kind of
+rewrite, with two differences that matter: both functions use a DEFAULT `bufio.Scanner`
+(`bufio.MaxScanTokenSize` = 64 KiB, and a MetricsMeta line carries the segment's whole `tagKeys` set), and
+`removeMetricsSegmentsByList` only LOGS the scanner's error and goes on with the lines it got. -/
+
+/-- `bufio.MaxScanTokenSize` -/
+def mmScanLimit : Nat := 65536
+
+/-- `ReadMetricsMeta`: the entries before the first line the scanner cannot deliver (the map it returns), and
+whether it returns an error -/
+def mmRead : SmFile → List SmLine × Bool
+  | .missing => ([], false)
+  | .lines ls => ((smScanWith mmScanLimit ls).1.filter (·.isEntry), (smScanWith mmScanLimit ls).2)
+
+/-- `removeMetricsSegmentsByList(file, map)`; `victim k` = MSegmentDir k is in the map -/
+def mmRemove (nilMap : Bool) (victim : Nat → Bool) (f : SmFile) : SmFile :=
+  if nilMap then f                                                     -- l.177
+  else match f with
+  | .missing => f                                                      -- l.186: open fails
+  | .lines ls =>
+    let sc := (smScanWith mmScanLimit ls).1                            -- l.220: the scan error is only logged
+    let es := sc.filter (·.isEntry)
+    if !(es.any (fun l => victim l.key)) then f                        -- l.223: entriesRemoved == 0
+    else
+      let keep := es.filter (fun l => !victim l.key)
+      if keep.isEmpty then .missing else .lines keep                   -- l.225-261
+
+/-- `ReadMetricsMeta` returns a map keyed by MSegmentDir (a later line of the same key replaces an earlier
+one); the pass applies its victim test to the map's values -/
+def mmExpiredKey (expired : SmLine → Bool) (es : List SmLine) (k : Nat) : Bool :=
+  match (es.filter (fun l => decide (l.key = k))).getLast? with
+  | some l => expired l
+  | none => false
+
+/-- the metrics half of a pass (`DoRetentionBasedDeletion` l.89-93, `doVolumeBasedDeletion` l.240-244,
+`doInodeBasedDeletion`): the victims are chosen among the entries `ReadMetricsMeta` returns; when it returns
+an error the pass RETURNS (nothing is deleted, log segments included).  `expired` = the pass's victim test. -/
+def mmPass (expired : SmLine → Bool) (f : SmFile) : SmFile :=
+  let rd := mmRead f
+  if rd.2 then f
+  else mmRemove false (mmExpiredKey expired rd.1) f
+
+/-! #### the file as bytes: what the scanner's lines are -/
+
+/-- `dropCR` of bufio: one trailing '\r' is not part of the line -/
+def smDropCR (l : List Nat) : List Nat := if l.getLast? = some 13 then l.dropLast else l
+
+/-- `bufio.ScanLines` applied to a whole file (bytes as naturals): the tokens in order.  `acc` = the bytes of
+the current line seen so far, reversed.  A last line without a newline is a token unless it is empty. -/
+def smSplitAux : List Nat → List Nat → List (List Nat)
+  | [], acc => if acc.isEmpty then [] else [smDropCR acc.reverse]
+  | b :: r, acc => if b = 10 then smDropCR acc.reverse :: smSplitAux r [] else smSplitAux r (b :: acc)
+
+def smSplitLines (bs : List Nat) : List (List Nat) := smSplitAux bs []
+
+/-- the file `removeSegmetas` / `BulkAddRotatedSegmetas` write: every line followed by '\n' -/
+def smJoinLines (ls : List (List Nat)) : List Nat := ls.flatMap (· ++ [10])
 
 /-! ### the volume-based pass -/
 
